@@ -316,3 +316,15 @@ Fixpoint filterM_idx {A} (f : Z -> A -> res bool) (i : Z) (l : list A) : res (li
   | [] => Ok []
   | x :: r => bind (f i x) (fun b => bind (filterM_idx f (i + 1) r) (fun r' => Ok (if b then x :: r' else r')))
   end.
+
+(* ---- once(): the timing union and the keyword arguments handed to __schedule ------------------- *)
+Inductive pyonce := PO_datetime (d : datetime) | PO_timedelta (T : timedelta) | PO_time (t : time) | PO_weekday (w : weekday).
+(* the keywords the model has a value for (handle, args, kwargs, tags, alias, weight pass through unmodelled) *)
+Record pyschedcall := mkSchedCall { sk_type : pyjobtype; sk_timing : pytiming; sk_max_attempts : Z;
+                                    sk_delay : bool; sk_start : option datetime }.
+(* a once() timing that is not a datetime, used as a job timing *)
+Definition once_as_timing (x : pyonce) : res pytiming :=
+  match x with
+  | PO_timedelta T => Ok (PTdelta T) | PO_time t => Ok (PTtime t) | PO_weekday w => Ok (PTweekday w)
+  | PO_datetime _ => Err TypeError
+  end.
